@@ -273,15 +273,15 @@ PROPS = {
                      "C06_constraint_inert", "C06_no_indicator_contribution", "C11_unscheduled_no_assignment",
                      "C03_raw_sound", "C06_absent_restrict", "C06_absent_extend", "C06_inert_guarded",
                      "C06_absent_models_restrict", "C06_absent_models_extend", "busyOf_dropTask", "envOf_dropTask_agree",
-                     "Absent_ex_inCoreS"],
-        "modules": ["Absent"],
+                     "Absent_ex_inCoreS", "C06_deletion_sound"],
+        "modules": ["Absent", "Renumber"],
         "profiles": [("all", 0.35), ("taskc", 0.2), ("obj", 0.15), ("focus_resc", 0.15), ("resc", 0.1), ("focus_taskc", 0.05)],
         "relevant": lambda o: True,
         "spec": None,
         "exact": True,
         "run_profiles": ["frag"],
         "n_run": {"quick": 80, "thorough": 1500},
-        "run_check": __import__("harness.solverprops", fromlist=["x"]).run_c06,
+        "run_check": __import__("harness.solverprops", fromlist=["x"]).run_c06, "run_needs_driver": True,
         "nontrivial": lambda s: any(d["op"] == "task" and d.get("optional") for d in s),
         "rule": "ENC with exactness over scripts with optional tasks (35 % of all tasks) in every profile; RUN (deletion "
                 "search): on 'frag' scripts an optional task t is chosen, the script without t (its requirements and "
@@ -295,8 +295,9 @@ PROPS = {
     },
     "C07": {
         "theorems": ["incLoop_spec", "C07_anytime", "C07_optimal", "incLoop_bound", "C07_bound_stop", "C07_weighted",
-                     "C07_weighted_goal", "C07_core_attainable", "C07_core_lower_bound", "C07_weighted_attainable"],
-        "modules": ["Exact", "Multi"],
+                     "C07_weighted_goal", "C07_core_attainable", "C07_core_lower_bound", "C07_weighted_attainable",
+                     "C07_optimal_valid"],
+        "modules": ["Exact", "Multi", "C07V"],
         "profiles": [("obj", 1.0)],
         "relevant": lambda o: owner_in(o, ("objective", "indicator:")),
         "spec": None,
@@ -318,7 +319,9 @@ PROPS = {
         "n": {"quick": 80, "thorough": 1500},
     },
     "C12": {
-        "theorems": ["blockingClause_eval", "C12_distinct", "C12_exhaustive", "C12_variable", "C13_base"],
+        "theorems": ["blockingClause_eval", "C12_distinct", "C12_exhaustive", "C12_variable", "C13_base",
+                     "C12_exhaustive_valid", "C12_returned_valid"],
+        "modules": ["C12V"],
         "profiles": [("core", 1.0)],
         "relevant": lambda o: False,
         "spec": None,
@@ -423,7 +426,8 @@ PROPS = {
     "C14": {
         "theorems": ["C14_fresh_problem", "C14_run_after_problem", "C14_valid_order_free", "C05_complete_core",
                      "C14_core_verdict", "C14_core_schedules", "Valid_iff_clean2", "ValidClean2_renumber", "Valid_renumber",
-                     "C14_tasks_order_verdict", "CoreMeaning_renumTasks", "Renum_ex_same", "Renum_ex_verdict"],
+                     "C14_tasks_order_verdict", "CoreMeaning_renumTasks", "Renum_ex_same", "Renum_ex_verdict",
+                     "CoreMeaning_sameUpTo", "numbersIntoB_sound", "tasksOrderTheoremB_sound"],
         "modules": ["Exact", "Renumber"],
         "profiles": [("all", 0.45), ("core", 0.2), ("obj", 0.15), ("buffer", 0.2)],
         "relevant": lambda o: True,
@@ -431,6 +435,7 @@ PROPS = {
         "exact": True,
         "history_enc": True,
         "run_profiles": ["frag", "frag", "taskc", "obj", "buffer", "resc", "focus_multiobj", "focus_multiobj"],
+        "run_needs_driver": True,
         "n_run": {"quick": 180, "thorough": 2000},
         "run_check": __import__("harness.c14", fromlist=["x"]).run_c14,
         "nontrivial": lambda s: True,
@@ -852,6 +857,17 @@ def run_channels(prop, rep):
         rep.count("scripts_with_differences_outside_this_property", s["other"])
         rep.count("sem_unknown", s["sem_unknown"])
         rep.count("assertions_compared", s["assertions"])
+    if spec.get("acc_grid"):
+        # the words every `Literal` field accepts, against the expected table of PS/Theorems/C18.lean
+        from harness import littab
+        try:
+            n_lit, lit_viols = littab.run()
+        except Exception as e:  # noqa: BLE001
+            n_lit, lit_viols = 0, [{"what": f"literal grid could not run: {type(e).__name__}: {e}"}]
+        rep.evaluations += n_lit
+        rep.count("acc_literal_constructor_calls", n_lit)
+        for v in lit_viols:
+            viols.append({"label": "literal grid", "script": [], "kind": "ACC", **v})
     rep.oblige(not broken, f"correspondence ENC/SM ({len(broken)} of {rep.evaluations} cases differ on what this property uses)")
     rep.oblige(not viols, f"SEM: no admitted schedule of the real code violates spec{spec.get('spec')}")
     seen = set()
